@@ -29,6 +29,19 @@ class Schema:
             seen += 1
         return att
 
+    def eff_val(self, att):
+        """the attribute's validation merged with those of the alias types it refers to (the attribute's own keys win)"""
+        out = {}
+        chain = [att]
+        seen = 0
+        while att and att.get("type", {}).get("ref") and seen < 10:
+            att = self.types[att["type"]["ref"]]["att"]
+            chain.append(att)
+            seen += 1
+        for a in reversed(chain):
+            out.update(a.get("val") or {})
+        return out
+
     def is_object(self, att):
         t = self.resolve(att).get("type", {})
         return bool(t.get("is_object") or t.get("object"))
@@ -51,11 +64,28 @@ class Schema:
         return False
 
 
+def satisfies(prim, val, x):
+    """does the primitive value meet the bound / length / pattern rules (used for Enum members of an attribute whose alias type has rules)"""
+    import re
+    if isinstance(x, (int, float)) and not isinstance(x, bool):
+        if "min" in val and x < val["min"] or "max" in val and x > val["max"]:
+            return False
+        if "exmin" in val and x <= val["exmin"] or "exmax" in val and x >= val["exmax"]:
+            return False
+    if isinstance(x, str):
+        if "minlen" in val and len(x) < val["minlen"] or "maxlen" in val and len(x) > val["maxlen"]:
+            return False
+        if val.get("pattern") and not re.search(val["pattern"], x):
+            return False
+    return True
+
+
 def valid_prim(prim, val, rng, location="body"):
     """A value of the primitive type satisfying the validation (None if we cannot build one)."""
     val = val or {}
     if val.get("enum"):
-        return rng.choice(val["enum"])
+        ok = [x for x in val["enum"] if satisfies(prim, {k: v for k, v in val.items() if k != "enum"}, x)]
+        return rng.choice(ok) if ok else None
     if prim == "Boolean":
         return rng.choice([True, False])
     if prim in INT_RANGES:
@@ -132,7 +162,7 @@ def gen_value(schema, att, rng, location="body", depth=0):
     a = schema.resolve(att)
     t = a.get("type", {})
     if t.get("prim"):
-        return valid_prim(t["prim"], att.get("val") or a.get("val"), rng, location)
+        return valid_prim(t["prim"], schema.eff_val(att), rng, location)
     if depth > 7:
         return None  # required recursion: no finite value down this branch
     if t.get("array"):
